@@ -718,9 +718,10 @@ impl Net {
 				let link = short_channel_id.and_then(|s| self.scids.iter().find(|(_, v)| **v == s).map(|(k, _)| k.0 as i64)).unwrap_or(-1);
 				self.ev(json!({"ev":"event","node":i,"kind":"PaymentPathFailed","hash":h,"permanent":payment_failed_permanently,"link":link}));
 			},
-			Event::PaymentPathSuccessful { payment_hash, .. } => {
+			Event::PaymentPathSuccessful { payment_hash, path, hold_times, .. } => {
 				let h = payment_hash.map(|p| self.hash(&p.0)).unwrap_or(0);
-				self.ev(json!({"ev":"event","node":i,"kind":"PaymentPathSuccessful","hash":h}));
+				// (C14: the fulfil's attribution data reports every hop's hold time)
+				self.ev(json!({"ev":"event","node":i,"kind":"PaymentPathSuccessful","hash":h,"hops":path.hops.len(),"hold_times":hold_times.len()}));
 			},
 			Event::PaymentForwarded { total_fee_earned_msat, claim_from_onchain_tx, outbound_amount_forwarded_msat, .. } => {
 				self.ev(json!({"ev":"event","node":i,"kind":"PaymentForwarded","fee":total_fee_earned_msat.unwrap_or(0),"onchain":claim_from_onchain_tx,"amt":outbound_amount_forwarded_msat}));
